@@ -134,6 +134,18 @@ def check_recovery(case, ctx):
             yy_, xx_ = int(round(ys_o[i])) + dy, int(round(xs_o[i])) + dx
             if 0 <= yy_ < ny and 0 <= xx_ < nx:
                 mask[yy_, xx_] = True
+    # a masked detector defect (huge values) covering most of the first
+    # source's local-background annulus but not its fit window: the local
+    # background must be estimated from the unmasked pixels only
+    if case.get('annulus_junk') and case['localbkg'] and ped != 0:
+        yy_, xx_ = np.mgrid[0:ny, 0:nx]
+        rr_ = np.hypot(xx_ - xs_o[0], yy_ - ys_o[0])
+        junk = (rr_ > fs / 2 + 1.5) & (rr_ < 13) & (np.abs(xx_ - xs_o[0]) > 2.6)
+        if junk.any():
+            mask = junk if mask is None else (mask | junk)
+            img = img.copy()
+            img[junk] = 1e4
+            ctx.event('masked_junk_in_annulus')
     # non-finite data pixels are documented to be masked automatically,
     # with or without a user mask
     nanpix = np.zeros((ny, nx), bool)
@@ -376,6 +388,7 @@ def recovery_cases(draw):
             'mask_points': [list(m) for m in draw(st.lists(
                 st.tuples(st.integers(0, 6), st.integers(-2, 2), st.integers(-2, 2)),
                 min_size=0, max_size=3))],
+            'annulus_junk': draw(st.booleans()),
             'nan_points': [list(m) for m in draw(st.one_of(st.just([]), st.lists(
                 st.tuples(st.integers(0, 6), st.integers(-2, 2), st.integers(-2, 2)),
                 min_size=1, max_size=2)))],
@@ -408,10 +421,16 @@ def check_iterative(case, ctx):
         img += np.random.default_rng(case['seed']).normal(0, 0.05, img.shape)
         finder = DAOStarFinder(1.0, case['fwhm'])
         grouper = SourceGrouper(case['min_sep']) if case['grouper'] else None
-        a = PSFPhotometry(model, (5, 5), finder=finder, grouper=grouper,
-                          aperture_radius=4.0)(img)
-        b = IterativePSFPhotometry(model, (5, 5), finder, grouper=grouper,
-                                   aperture_radius=4.0, maxiters=1)(img)
+        # every constructor option must reach the wrapped fitter
+        opts = dict(grouper=grouper, aperture_radius=4.0,
+                    xy_bounds=case.get('xy_bounds'))
+        if case.get('localbkg'):
+            from photutils.background import LocalBackground, MedianBackground
+            opts['localbkg_estimator'] = LocalBackground(5, 9, MedianBackground())
+        if case.get('fitter_maxiters'):
+            opts['fitter_maxiters'] = case['fitter_maxiters']
+        a = PSFPhotometry(model, (5, 5), finder=finder, **opts)(img)
+        b = IterativePSFPhotometry(model, (5, 5), finder, maxiters=1, **opts)(img)
     ctx.mark(True)
     if a is None or b is None:
         require(a is None and b is None, 'iterative_none_mismatch')
@@ -436,7 +455,10 @@ def iterative_cases(draw):
             'sources': [[draw(st.floats(4, nx - 5)), draw(st.floats(4, ny - 5)),
                          draw(st.floats(80, 400))] for _ in range(n)],
             'seed': draw(st.integers(0, 10**6)), 'grouper': draw(st.booleans()),
-            'min_sep': draw(st.floats(4, 15))}
+            'min_sep': draw(st.floats(4, 15)),
+            'xy_bounds': draw(st.sampled_from([None, 0.05, 0.3, [0.1, 2.0]])),
+            'localbkg': draw(st.booleans()),
+            'fitter_maxiters': draw(st.sampled_from([None, 3, 100]))}
 
 
 def check_free_shape(case, ctx):
